@@ -780,6 +780,28 @@ func c02CloseOnce(c *Ctx) {
 			}
 		}
 	}
+	// a notification extracted into a helper that run calls at exactly one site (and that cannot
+	// repeat it) counts as run's own: the site is then the call of the helper
+	for _, n := range []string{"OnSessionOpen", "OnSessionClose"} {
+		if len(sites[n]) != 1 {
+			continue
+		}
+		for depth := 0; depth < 2 && fnsOf[n][0] != run; depth++ {
+			h := fnsOf[n][0]
+			refs := p.RefsTo(h)
+			if h.Parent() != nil || token.IsExported(h.Name()) || len(refs) != 1 || !refs[0].IsCall {
+				break
+			}
+			if _, isCall := refs[0].Instr.(*ssa.Call); !isCall {
+				break
+			}
+			site := sites[n][0]
+			if again, _, _ := core.PathAvoiding(h, site, func(x ssa.Instruction) bool { return x == site }, nil); again {
+				break
+			}
+			sites[n][0], fnsOf[n][0] = refs[0].Instr, refs[0].Caller
+		}
+	}
 	for _, n := range []string{"OnSessionOpen", "OnSessionClose"} {
 		ok := len(sites[n]) == 1 && fnsOf[n][0] == run
 		pos := ""
@@ -797,7 +819,7 @@ func c02CloseOnce(c *Ctx) {
 				}
 			}
 		}
-		ok := call != nil && instrDominates(sites["OnSessionOpen"][0], call) == false && instrDominates(call, sites["OnSessionClose"][0])
+		ok := call != nil && instrDominates(call, sites["OnSessionClose"][0])
 		// open precedes runInner on the paths where it is called (handler present): open's block dominates... the open call is conditional (handler may be absent)
 		reachOpenAfter := false
 		if call != nil {
